@@ -547,8 +547,10 @@ static void c10_run_all(void) {
     }
     uint64_t per = nrand / 12;
     for (int chunk = 0; chunk < 16; chunk++)
-      if (MINE())
-        for (uint64_t i = 0; i < per / 16; i++) { uint64_t v = vh_rand(&r); if (i & 1) v >>= vh_below(&r, 64); c10_case(e, v & mask); }
+      if (MINE()) {
+        vh_rng_seed(&r, (O.seed ^ 0xc10) * 1000003 + (uint64_t)e * 64 + (uint64_t)chunk);
+        for (uint64_t i = 0; i < per / 16; i++) { uint64_t v = vh_rand(&r); if ((i & 3) == 1) v >>= vh_below(&r, 64); c10_case(e, v & mask); }
+      }
   }
   for (int e = 0; e < E_N; e++) { char nm[64]; snprintf(nm, sizeof nm, "encoder_ok.%s", enc_names[e]); vh_count_dyn(nm, enc_hits[e]); }
 }
